@@ -50,7 +50,7 @@ CHECKS = {
     "C12": ("exploration",
             "property-based testing (Hypothesis): cycle-accurate reference register file (written from the docstrings) compared in every cycle with the real CSRBank over generated register sets and bus/device histories",
             "Generated register sets (raw CSRs, storages with/without atomic write and device write, statuses incl. writable, fields with offsets/gaps/pulse/reset, 1..>2 bus words), bus width 8/32, big/little ordering, bank address, paging; histories of bus writes/reads (this bank, other bank, beyond the last register, aliases of the word index), full accessor sequences, idle cycles and device-side updates. The model predicts dat_r, every storage, every re/we strobe, every field value in every cycle; any difference is a violation.",
-            "Trusted: Migen's simulator; the model. Device and bus write to one register never coincide (unspecified). Known finding (atomic_write + little ordering) excluded by construction and replayed. csr_bus.SRAM windows and CSRBankArray are exercised by C14, not here.",
+            "Trusted: Migen's simulator; the model. Atomic writes in both orderings (little ordering repaired, witness replayed). csr_bus.SRAM windows and CSRBankArray are exercised by C14, not here.",
             "DESIGN.md section 4 / C12"),
     "C15": ("exploration",
             "property-based testing (Hypothesis) + exhaustive alignment sweep: cycle-accurate pending/irq model vs the real EventManager behind a real CSRBank",
